@@ -51,7 +51,7 @@ def circle_oracle(cx, cy, r, qx, qy):
 def ellipse_oracle(cx, cy, w, h, th, qx, qy):
     c, s = sp.cos(th), sp.sin(th)
     dx, dy = qx - cx, qy - cy
-    return Cmp('<=', ((dx * c + dy * s) / (w / 2)) ** 2 + ((-dx * s + dy * c) / (h / 2)) ** 2,
+    return Cmp('<', ((dx * c + dy * s) / (w / 2)) ** 2 + ((-dx * s + dy * c) / (h / 2)) ** 2,
                sp.Integer(1))
 
 
